@@ -712,16 +712,21 @@ def run(ctx):
         "radial pdfs: probes only",
         "floating-point rounding; the special functions themselves",
     ]
-    ctx.tie.update({"rad_fac; Gaussian / Exponential spectral_density, spectral_rad_cdf, spectral_rad_ppf; Matern, Integral, JBessel "
-                    "spectral_density": "translated (py2coq, every run) + Coq equality with the hand model (C04_tie_*, no side condition) "
-                                        "+ correspondence",
-                    "HyperSpherical.spectral_density, tpl_exp_spec_dens, tpl_gau_spec_dens (not translatable: AugAssign / recursion / for), "
-                    "spectral_rad_pdf, ln_spectral_rad_pdf, spectrum, len_rescaled / len_low_rescaled plumbing, has_cdf, has_ppf, dist_func":
-                        "hand model + correspondence",
+    ctx.tie.update({"rad_fac; Gaussian / Exponential spectral_density, spectral_rad_cdf, spectral_rad_ppf; Matern, Integral, HyperSpherical, "
+                    "JBessel spectral_density; tpl_exp_spec_dens, tpl_gau_spec_dens (+ _base); TPLGaussian / TPLExponential spectral_density "
+                    "(17 functions)": "translated (py2coq, every run) + Coq equality with the hand model (C04_tie_*, no side condition) "
+                                      "+ correspondence",
+                    "spectral_rad_pdf (abs / mask / isfinite / clip wrapper), ln_spectral_rad_pdf, spectrum, len_rescaled = len_scale / rescale, "
+                    "has_cdf, has_ppf, dist_func": "hand model + correspondence",
                     "default numerical spectral_density (hankel)": "not modelled: probes only"})
     ok = ctx.proofs("props/C04.v")
     okd, out = C.build_driver("c04")
-    tie_ok = ok and okd
+    sig_bad = check_signatures() if ok else []
+    if sig_bad:
+        C.log("[C04] generated signatures differ from what the tie lemmas assume:\n  " + "\n  ".join(sig_bad))
+        ctx.proof_failure = dict(file="gen/Formulas_gen.v", signatures=sig_bad, output_tail="")
+    ctx.tie["attribute -> parameter position of the translated functions"] = "checked by name against the generated signatures (harness)"
+    tie_ok = ok and okd and not sig_bad
     if okd:
         drv = C.Driver("c04", oracle)
         try:
@@ -738,10 +743,50 @@ def run(ctx):
             ctx.violation("proof/tie", what, dict(proofs=ok, driver=okd, failure=getattr(ctx, "proof_failure", None)), no_input=True)
 
 
+# the tie lemmas identify the parameters of a translated function by POSITION; which self attribute feeds which position is
+# checked here against the names py2coq derived from the source (a `self.len_up_rescaled` passed where `self.len_rescaled`
+# belongs keeps the Coq types and would otherwise slip through the equality)
+GEN_SIGNATURES = {
+    "rad_fac": "dim r",
+    "Gaussian_spectral_density": "len_rescaled dim k", "Gaussian_spectral_rad_cdf": "dim len_rescaled r",
+    "Gaussian_spectral_rad_ppf": "dim len_rescaled u",
+    "Exponential_cor": "h",
+    "Exponential_spectral_density": "len_rescaled dim k", "Exponential_spectral_rad_cdf": "dim len_rescaled r",
+    "Exponential_spectral_rad_ppf": "dim len_rescaled u",
+    "Matern_spectral_density": "len_rescaled nu dim k", "Integral_spectral_density": "len_rescaled dim nu k",
+    "HyperSpherical_spectral_density": "len_rescaled dim k", "JBessel_spectral_density": "len_rescaled dim nu k",
+    "tpl_exp_spec_dens_base": "k dim len_scale hurst", "tpl_exp_spec_dens": "k dim len_scale hurst len_low",
+    "tpl_gau_spec_dens_base": "k dim len_scale hurst", "tpl_gau_spec_dens": "k dim len_scale hurst len_low",
+    "TPLGaussian_spectral_density": "dim len_rescaled hurst len_low_rescaled k",
+    "TPLExponential_spectral_density": "dim len_rescaled hurst len_low_rescaled k",
+}
+
+
+def check_signatures():
+    """names and order of the parameters of the generated definitions the ties are about; returns list of mismatches"""
+    import re
+    src = open(os.path.join(C.COQ, "gen", "Formulas_gen.v")).read()
+    bad = []
+    for fn, want in GEN_SIGNATURES.items():
+        m = re.search(r"^Definition %s((?: \(\w+ : T\))*) : " % re.escape(fn), src, re.M)
+        got = " ".join(re.findall(r"\((\w+) : T\)", m.group(1))) if m else None
+        if got != want:
+            bad.append("%s: parameters (%s), expected (%s)" % (fn, got, want))
+    # the classes call the module-level functions with (k, dim, len_rescaled, hurst, len_low_rescaled)
+    for cls_fn, callee in (("TPLGaussian_spectral_density", "tpl_gau_spec_dens"), ("TPLExponential_spectral_density", "tpl_exp_spec_dens")):
+        m = re.search(r"^Definition %s[^\n]*\n\s*\((\w+) ([^\n]*)\)\.$" % cls_fn, src, re.M)
+        if not m or m.group(1) != callee or m.group(2).split() != "k dim len_rescaled hurst len_low_rescaled".split():
+            bad.append("%s: body is not %s k dim len_rescaled hurst len_low_rescaled" % (cls_fn, callee))
+    return bad
+
+
 def broken_obligation(ctx):
     """name the lemma that no longer checks (a tie lemma: the formula translated from the source differs from the hand model)"""
     import re
-    out = (getattr(ctx, "proof_failure", None) or {}).get("output_tail", "")
+    pf = getattr(ctx, "proof_failure", None) or {}
+    if pf.get("signatures"):
+        return "tie broken: a translated function takes other attributes than the tie lemmas assume: " + "; ".join(pf["signatures"])
+    out = pf.get("output_tail", "")
     mk = re.search(r"\[Makefile:\d+: (c04/\w+|props/C04)\.vo\] Error", out)
     if mk and 'File "' not in out:      # the shared code keeps only the tail of make's output: ask coqc for the position
         try:
